@@ -75,25 +75,55 @@ def r01a(run):
             if n.kind != "stmt" or not isinstance(n.ast, ast.Return) or not fa.cfg.is_live(n):
                 continue
             sites += 1
-            v = n.ast.value
-            if not isinstance(v, ast.Name):
-                run.ob("R01a", f, f"`{norm_stmt(n.ast)[:60]}` returns a construction / delegated / literal value", True)
-                continue
-            bare += 1
-            os_ = prov(fa).of_name(n, v.id)
-            raw = [o for o in os_ if o.kind == "param" or
-                   (o.kind == "call" and o.text.split(".")[-1] in PASSTHROUGH_HELPERS) or
-                   o.kind in ("iter", "iter-unpack", "sub", "unbound", "global")]
-            if not raw:
-                run.ob("R01a", f, f"`return {v.id}`: every definition is a construction or a delegated conversion", True)
-                continue
-            ok, why = guard_ok(fa, n, v.id, t, reg)
-            run.check("R01a", f, f"`return {v.id}` (the unconverted input) is dominated by a type guard ({why})", ok,
-                      construct=f"unguarded return of the input `{v.id}`",
-                      message=f"converter {f.qualname} returns `{v.id}`, which is (an alias of) its input, on a path "
-                              f"without a positive type guard on it against the target type `{t}`",
-                      necessity="any input of another type reaching that path is handed back unchanged: the parse "
-                                "returns a value that is not an instance of the declared type", node=n.ast)
+            # a conditional expression returns either arm
+            arms = []
+
+            def split(e, conds):
+                if isinstance(e, ast.IfExp):
+                    split(e.body, conds + [(e.test, True)])
+                    split(e.orelse, conds + [(e.test, False)])
+                else:
+                    arms.append((e, conds))
+            split(n.ast.value, [])
+            for v, conds in arms:
+                if not isinstance(v, ast.Name):
+                    run.ob("R01a", f, f"`{norm_stmt(n.ast)[:60]}` returns a construction / delegated / literal value", True)
+                    continue
+                bare += 1
+                os_ = prov(fa).of_name(n, v.id)
+                # results of foreign parse functions (json.loads, ast.literal_eval, ...) are as unconstrained as the input
+                foreign = [o for o in os_ if o.kind == "call" and isinstance(o.node.func, ast.Attribute)
+                           and isinstance(o.node.func.value, ast.Name) and o.node.func.value.id in f.module.imports
+                           and o.node.func.value.id not in ("self",)]
+                for o in os_:
+                    if o.kind == "call" and isinstance(o.node.func, ast.Attribute) and isinstance(o.node.func.value, ast.Name) \
+                            and o.node.func.value.id in fa.rd.locals:
+                        # locally imported module (`import ast` inside the function)
+                        defs = prov(fa).of_name(o.at, o.node.func.value.id)
+                        if defs and all(d.kind == "def" for d in defs):
+                            foreign.append(o)
+                raw = [o for o in os_ if o.kind == "param" or
+                       (o.kind == "call" and o.text.split(".")[-1] in PASSTHROUGH_HELPERS) or
+                       o.kind in ("iter", "iter-unpack", "sub", "unbound", "global")] + foreign
+                if not raw:
+                    run.ob("R01a", f, f"`return {v.id}`: every definition is a construction or a delegated conversion", True)
+                    continue
+                ok, why = guard_ok(fa, n, v.id, t, reg)
+                if not ok:
+                    # a guard in the conditional expression itself
+                    for test, pol in conds:
+                        if pol and isinstance(test, ast.Call) and call_attr(test) == "isinstance" and test.args \
+                                and unparse(test.args[0]) == v.id:
+                            ok, why = True, f"{unparse(test)} in the conditional expression"
+                what = "the unconverted input" if not foreign else "the result of a foreign parse function"
+                run.check("R01a", f, f"`return {v.id}` ({what}) is dominated by a type guard ({why})", ok,
+                          construct=f"unguarded return of {'the input' if not foreign else 'a foreign parse result'} `{v.id}`",
+                          message=f"converter {f.qualname} returns `{v.id}`, which is "
+                                  + ("(an alias of) its input" if not foreign else
+                                     f"the result of `{unparse(foreign[0].node)[:50]}` (any JSON / literal type)")
+                                  + f", on a path without a positive type guard on it against the target type `{t}`",
+                          necessity="any input of another type reaching that path is handed back unchanged: the parse "
+                                    "returns a value that is not an instance of the declared type", node=n.ast)
     run.floor("R01a", "converter return sites", sites, 70)
     run.floor("R01a", "converter returns of a bare name", bare, 15)
     # the dispatchers
